@@ -12,15 +12,15 @@ INFO = {
     'explanation': 'Each obligation: for EVERY Unicode string s of the stated length (optionally with a stated first-character class), '
                    'the real splitter returns exactly the fields and warning flag of the reference dialect scanner; the quote-preserving '
                    'split re-joins to s; public path = rbql_csv.CSVRecordIterator(PieceIn([s]),...).get_record()/get_warnings().',
-    'bounds': 'line length per shard (quick: 0..5, thorough: 0..7 with length 7 split by first-character class); delimiters , ; TAB | SPACE; '
+    'bounds': 'line length per shard (quick: 0..5, thorough: 0..7 with length 7 split by first-character class); delimiters , ; TAB | SPACE and the multi-character "::", ", ", " | "; '
               'policies quoted, quoted_rfc, simple, whitespace, monocolumn; preserve flag both ways',
-    'outside': 'lines longer than the bound; multi-character delimiters other than "::"; JS twin (see C18)',
+    'outside': 'lines longer than the bound; multi-character delimiters other than "::", ", " and " | "; JS twin (see C18)',
     'assumptions': ['CrossHair 0.0.110 models of str/re/list are faithful to CPython 3.12 (counterexamples are replayed on the real interpreter)',
                     'reference dialect scanner vf/refmodel/csvref.py validated on the repository\'s own test_split vectors at every run'],
     'trusted': ['crosshair-tool 0.0.110', 'z3 4.x (z3-solver wheel)', 'CPython 3.12.1 re module'],
 }
 
-DLM_NAMES = {'::': 'dcolon', ',': 'comma', ';': 'semi', '\t': 'tab', '|': 'pipe', ' ': 'space'}
+DLM_NAMES = {'::': 'dcolon', ', ': 'commaspace', ' | ': 'spacepipespace', ',': 'comma', ';': 'semi', '\t': 'tab', '|': 'pipe', ' ': 'space'}
 
 
 def selfcheck():
@@ -57,7 +57,7 @@ return (got, exp)
 def _split_enum_obl(dlm, L, preserve, timeout=120):
     """Every line of length L over the CLASS ALPHABET {quote, delimiter, space, LF, CR, 'a'}, enumerated by the solver and made concrete per
     path: the real `re` module then runs on plain strings.  Covers what CrossHair's regex model cannot see (`$` also matches before a final LF)."""
-    alpha = tuple(sorted(set([34, ord(dlm[0]), 32, 10, 13, 97])))
+    alpha = tuple(sorted(set([34, 32, 10, 13, 97] + [ord(c) for c in dlm])))
     params = [('n%d' % i, 'int') for i in range(L)] or [('dummy', 'int')]
     pre = ['n%d in %r' % (i, alpha) for i in range(L)] or ['dummy == 0']
     body = indent("""
@@ -156,6 +156,11 @@ def obligations(tier, seed):
         for L in (0, 1, 2, 3, 4):
             obs.append(_split_obl('::', L, False, timeout=90))     # multi-character delimiter (fixed defect, see known_findings.json)
             obs.append(_split_obl('::', L, True, timeout=90))
+        # multi-character delimiter that CONTAINS a blank: blanks around a quoted field are still allowed (only dlm == ' ' forbids them)
+        for L in (3, 4):
+            obs.append(_split_obl(', ', L, False, timeout=90))
+        obs.append(_split_enum_obl(', ', 4, False))
+        obs.append(_split_enum_obl(', ', 4, True))
         for L in (0, 2, 4):
             obs.append(_smart_obl(',', 'simple', L, False))
             obs.append(_smart_obl(' ', 'whitespace', L, False))
@@ -180,6 +185,13 @@ def obligations(tier, seed):
         for L in range(0, 7):
             obs.append(_split_obl('::', L, False, timeout=900))
             obs.append(_split_obl('::', L, True, timeout=900))
+        for d in (', ', ' | '):
+            for L in range(0, 6):
+                obs.append(_split_obl(d, L, False, timeout=900))
+                obs.append(_split_obl(d, L, True, timeout=900))
+            for L in (3, 4, 5):
+                obs.append(_split_enum_obl(d, L, False, timeout=900))
+                obs.append(_split_enum_obl(d, L, True, timeout=900))
         for d in (',', ' '):
             for first in ('q', 'd', 's', 'o'):
                 if d == ' ' and first == 's':
